@@ -119,20 +119,39 @@ def suffix(*sfx):
     return lambda p: any(p == s or p.endswith(s) for s in sfx)
 
 
-def field_writes(body, name_pred):
+def field_writes(body, name_pred, deep=False):
     """assignments (bi, si, stmt) whose destination place ends in a field satisfying name_pred;
-    also call terminators writing their result into such a place: (bi, None, term)"""
+    also call terminators writing their result into such a place: (bi, None, term).
+    deep=True additionally reports (a) writes to a sub-place of such a field (`x.f.g = ..`, `x.f[i] = ..`) and
+    (b) mutable borrows `&mut x.f..` (any later write through the borrow - Option::insert/replace/
+    get_or_insert, mem::swap ... - happens no earlier than the borrow) as synthetic statements whose
+    destination is the borrowed place and whose rvalue is {"r": "mutborrow"}."""
     out = []
+
+    def hit(p):
+        if not deep:
+            last = _last_field(p)
+            return last is not None and name_pred(last)
+        return any(isinstance(e, dict) and "f" in e and name_pred(e["f"]) for e in p.get("p", ()))
     for bi, si, s in body.assigns():
-        p = s["p"]
-        last = _last_field(p)
-        if last is not None and name_pred(last):
+        if hit(s["p"]):
             out.append((bi, si, s))
+        elif deep:
+            rv = s["rv"]
+            if rv["r"] in ("ref", "addr", "rawptr") and rv.get("mut") and hit(rv["p"]):
+                out.append((bi, si, {"k": "as", "p": rv["p"], "rv": {"r": "mutborrow"}, "l": s.get("l")}))
     for bi, t, _ in body.calls():
-        last = _last_field(t["dst"])
-        if last is not None and name_pred(last):
+        if hit(t["dst"]):
             out.append((bi, None, t))
     return out
+
+
+def named_field(p, name_pred):
+    """the first field in place p's projection that satisfies name_pred (for deep field_writes results)"""
+    for e in p.get("p", ()):
+        if isinstance(e, dict) and "f" in e and name_pred(e["f"]):
+            return e["f"]
+    return None
 
 
 def _last_field(p):
@@ -901,3 +920,98 @@ def ints_in_blocks(body, blocks, bits=None):
                 if a["k"] == "c" and isinstance(a.get("v"), int):
                     out.append((a["v"], a.get("ty")))
     return out
+
+
+# ---------------------------------------------------------------- mutable access to receiver state
+
+def mut_borrow_map(body):
+    """local -> (root_local, [field names]) for every `_l = &mut <place>` (and raw mut), with reborrow chains
+    through such locals resolved (`&mut *_l.f` where _l is itself a recorded borrow)."""
+    raw = {}
+    for bi, si, s in body.assigns():
+        rv = s["rv"]
+        if rv["r"] in ("ref", "addr", "rawptr") and rv.get("mut") and "p" not in s["p"]:
+            pl = rv["p"]
+            fields = [e["f"] for e in pl.get("p", ()) if isinstance(e, dict) and "f" in e]
+            raw.setdefault(s["p"]["l"], []).append((bi, pl["l"], fields))
+        elif rv["r"] == "use" and "p" not in s["p"] and rv.get("o", {}).get("k") in ("mv", "cp") and "p" not in rv["o"].get("p", {"p": 1}):
+            raw.setdefault(s["p"]["l"], []).append((bi, ("alias", rv["o"]["p"]["l"]), []))
+    out = {}
+
+    def resolve(l, seen):
+        res = []
+        for bi, root, fields in raw.get(l, ()):
+            if isinstance(root, tuple):
+                root = root[1]
+                if root in raw and root not in seen:
+                    res += [(bi, r2, f2) for _, r2, f2 in resolve(root, seen | {root})]
+                continue
+            if root in raw and root not in seen:
+                for _, r2, f2 in resolve(root, seen | {root}):
+                    res.append((bi, r2, f2 + fields))
+            else:
+                res.append((bi, root, fields))
+        return res
+    for l in raw:
+        r = resolve(l, {l})
+        if r:
+            out[l] = r
+    return out
+
+
+def may_write_fields(facts, fn, fields, self_local=1, depth=4, _memo=None):
+    """summary: may `fn` write (or hand out a mutable borrow of) any of `fields` of the object its
+    `self_local` parameter points to? Unknown callees that receive the whole object mutably count as yes."""
+    if _memo is None:
+        _memo = {}
+    key = (fn, self_local)
+    if key in _memo:
+        return _memo[key]
+    _memo[key] = False
+    body = facts.body(fn) if facts.has_body(fn) else None
+    if body is None:
+        _memo[key] = True
+        return True
+    res = bool(state_mut_sites(facts, body, fields, self_local, depth - 1, _memo))
+    _memo[key] = res
+    return res
+
+
+def state_mut_sites(facts, body, fields, self_local=1, depth=4, _memo=None):
+    """sites in `body` that may mutate one of `fields` of *self_local: direct assignments, call results stored
+    into the field, `&mut self.<field>` borrows, and calls that receive `&mut *self` and whose callee
+    may_write_fields. -> [(bi, description)]"""
+    if _memo is None:
+        _memo = {}
+    sites = []
+    fset = set(fields)
+
+    def rooted(pl):
+        return pl["l"] == self_local or (pl["l"] in mb and any(r == self_local for _, r, _ in mb[pl["l"]]))
+    mb = mut_borrow_map(body)
+    for bi, si, s in field_writes(body, lambda n: n in fset):
+        pl = s["p"] if si is not None else s["dst"]
+        if rooted(pl):
+            sites.append((bi, "write:%s" % _last_field(pl)))
+    whole = set()
+    for l, lst in mb.items():
+        for bi, root, fl in lst:
+            if root != self_local:
+                continue
+            hit = [f for f in fl if f in fset]
+            if hit:
+                sites.append((bi, "mutborrow:%s" % hit[0]))
+            elif not fl:
+                whole.add(l)
+    for bi, t, path in body.calls():
+        for i, a in enumerate(t["a"]):
+            if a.get("k") in ("mv", "cp") and "p" not in a["p"] and a["p"]["l"] in whole:
+                callee = path
+                if callee and facts.has_body(callee):
+                    if depth > 0 and may_write_fields(facts, callee, fields, i + 1, depth, _memo):
+                        sites.append((bi, "call:%s" % callee.split("::")[-1]))
+                    elif depth <= 0:
+                        sites.append((bi, "call:%s(depth)" % callee.split("::")[-1]))
+                else:
+                    sites.append((bi, "call:%s(extern)" % (path or "?").split("::")[-1]))
+    return sorted(set(sites))
